@@ -200,7 +200,7 @@ def run_shard(spec):
             total += runs
             st_.exhaustive = st_.exhaustive and done
         st_.extra["conc_dfs_schedules"] = total
-        st_.extra["conc_preemption_bound"] = bound
+        st_.notes.append(f"conc DFS preemption bound {bound}")
         return st_
     count = [0]
 
